@@ -415,6 +415,18 @@ class SimFS:
 
     unlink = remove
 
+    def link(self, src, dst):
+        """A second name for the same inode; never replaces an existing name."""
+        src, dst = self.norm(src), self.norm(dst)
+        if src not in self.files:
+            raise self._missing(src)
+        if dst in self.files or dst in self.dirs:
+            raise FileExistsError(_errno.EEXIST, "File exists", dst)
+        if posixpath.dirname(dst) not in self.dirs:
+            raise self._missing(dst)
+        self.files[dst] = self.files[src]
+        self.events.append(("link", src, dst))
+
     def scandir(self, path="."):
         fs = self
         path = self.norm(path)
